@@ -152,12 +152,12 @@ func (s *Session) OnEvent(event Event) {
 		}()
 	case *AddEvent:
 		// There's no compute if absent for sync.Map, figure a better way to do this if the pool already exists.
-		if pool, loaded := s.pools.LoadOrStore(evt.Host.Key(), connectPoolNoFail(s.ctx, connPoolConfig{
+		newPool := connectPoolNoFail(s.ctx, connPoolConfig{
 			Endpoint:      evt.Host.Endpoint,
 			SessionConfig: s.config,
-		})); loaded {
-			p := pool.(*connPool)
-			p.cancel()
+		})
+		if _, loaded := s.pools.LoadOrStore(evt.Host.Key(), newPool); loaded {
+			newPool.cancel() // The host already has a pool, which stays in use; the new one isn't needed
 		}
 	case *RemoveEvent:
 		if pool, ok := s.pools.LoadAndDelete(evt.Host.Key()); ok {
